@@ -298,6 +298,11 @@ def diagnose(spec, lines, workdir):
                     rej2, _ = fu.result()
                     if not rej2 or rej2[0] > ln:
                         groups.append(g)
+        if not groups and len(cand) > 1:
+            # no single rule group explains it: several rules of different groups fail at once
+            rej2, _ = validate_file(spec, p, workdir, tuple(off + cand))
+            if not rej2 or rej2[0] > ln:
+                groups = list(cand)
         found.append((ln, evn, groups))
         if not groups:
             break
